@@ -37,17 +37,20 @@ fn pos_of(text: &str, off: usize) -> (u32, u32)
 	(line, col)
 }
 
-fn check(cx: &mut Cx, text: &str, off: usize, dir: &std::path::Path)
+/// `files[0]` is main.asm; `blame` = for each file name the byte offset of the statement that every diagnostic
+/// naming that file must point at
+fn check_files(cx: &mut Cx, files: &[(String, String)], blame: &[(String, usize)], dir: &std::path::Path)
 {
-	let input = format!("diag {} {off}", hex(text.as_bytes()));
-	let want = pos_of(text, off);
-	Project::single(text.as_bytes()).write(dir);
+	let input = format!("diagp {} ; {}", files.iter().map(|(n, t)| format!("{n}={}", hex(t.as_bytes()))).collect::<Vec<_>>().join(" "),
+		blame.iter().map(|(n, o)| format!("{n}@{o}")).collect::<Vec<_>>().join(" "));
+	let want: Vec<(String, (u32, u32))> = blame.iter().map(|(n, o)| (n.clone(), pos_of(&files.iter().find(|(f, _)| f == n).unwrap().1, *o))).collect();
+	Project{files: files.iter().map(|(n, t)| (n.clone(), t.clone().into_bytes())).collect()}.write(dir);
 	match run_real(dir)
 	{
 		Err(p) => cx.report.oracle_fail(input, format!("panic: {p}")),
 		Ok(o) =>
 		{
-			cx.report.case(Some(&format!("{}:{}:{}", want.0, want.1, o.errors.first().map(|e| e.3.chars().take(30).collect::<String>()).unwrap_or_default())));
+			cx.report.case(Some(&format!("{:?}:{}", want, o.errors.first().map(|e| e.3.chars().take(30).collect::<String>()).unwrap_or_default())));
 			if o.errors.is_empty()
 			{
 				if o.close_err.is_none() {cx.report.oracle_fail(input, "the ill-formed statement produced no diagnostic");}
@@ -55,14 +58,29 @@ fn check(cx: &mut Cx, text: &str, off: usize, dir: &std::path::Path)
 			}
 			for (file, line, col, msg) in &o.errors
 			{
-				if (*line, *col) != want || !file.ends_with("main.asm")
+				let base = file.rsplit('/').next().unwrap_or(file);
+				match want.iter().find(|(n, _)| n == base)
 				{
-					cx.report.oracle_fail(input, format!("diagnostic {msg:?} names {file}:{line}:{col}, the statement's first token is at {}:{}", want.0, want.1));
-					return;
+					Some((_, w)) if *w == (*line, *col) => (),
+					Some((_, w)) =>
+					{
+						cx.report.oracle_fail(input, format!("diagnostic {msg:?} names {file}:{line}:{col}, the statement's first token is at {}:{}", w.0, w.1));
+						return;
+					},
+					None =>
+					{
+						cx.report.oracle_fail(input, format!("diagnostic {msg:?} names {file}:{line}:{col}, but no statement of that file is at fault (expected {want:?})"));
+						return;
+					},
 				}
 			}
 		},
 	}
+}
+
+fn check(cx: &mut Cx, text: &str, off: usize, dir: &std::path::Path)
+{
+	check_files(cx, &[("main.asm".to_owned(), text.to_owned())], &[("main.asm".to_owned(), off)], dir);
 }
 
 pub fn run(cx: &mut Cx)
@@ -70,12 +88,14 @@ pub fn run(cx: &mut Cx)
 	let dir = cx.work.join("diag");
 	if let Some(input) = cx.replay.clone()
 	{
-		if let Some(rest) = input.strip_prefix("diag ")
+		if let Some(rest) = input.strip_prefix("diagp ")
 		{
-			let mut it = rest.split(' ');
-			let text = String::from_utf8(unhex(it.next().unwrap_or("")).unwrap_or_default()).unwrap_or_default();
-			let off = it.next().and_then(|s| s.parse().ok()).unwrap_or(0);
-			check(cx, &text, off, &dir);
+			if let Some((fs, bl)) = rest.split_once(" ; ")
+			{
+				let files: Vec<(String, String)> = fs.split(' ').filter_map(|p| p.split_once('=')).map(|(n, h)| (n.to_owned(), String::from_utf8(unhex(h).unwrap_or_default()).unwrap_or_default())).collect();
+				let blame: Vec<(String, usize)> = bl.split(' ').filter_map(|p| p.split_once('@')).map(|(n, o)| (n.to_owned(), o.parse().unwrap_or(0))).collect();
+				check_files(cx, &files, &blame, &dir);
+			}
 		}
 		return;
 	}
@@ -121,6 +141,26 @@ every recorded diagnostic must name main.asm and the line/column of the statemen
 		cx.report.hit("diagnostic position cases");
 		if i < 3 {cx.report.sample(format!("diag at {:?}: {}", pos_of(&text, off), text.replace('\n', "\\n").chars().take(120).collect::<String>()));}
 		check(cx, &text, off, &dir);
+		// the same statement around an `.include`: after a clean include the blame stays with main.asm; inside the
+		// included file the blame is that file's statement, and the includer reports the failed include at its own statement
+		if i % 3 == 0
+		{
+			let child_ok = "// child\n.du8 0x21;\n\tNOP;\n";
+			let pre = format!("{}.addr 0x100;{}.du8 7;{}", *rng.pick(SEPS), *rng.pick(SEPS), *rng.pick(SEPS));
+			let inc_off = pre.len();
+			let sep = *rng.pick(SEPS);
+			// (a) bad statement in main after a clean include
+			let main_a = format!("{pre}.include \"inc.asm\";{sep}{bad}");
+			let off_a = pre.len() + ".include \"inc.asm\";".len() + sep.len() + boff;
+			check_files(cx, &[("main.asm".to_owned(), main_a), ("inc.asm".to_owned(), child_ok.to_owned())], &[("main.asm".to_owned(), off_a)], &dir);
+			// (b) bad statement inside the included file
+			let lead = format!("{}// c\n{}", *rng.pick(SEPS), *rng.pick(SEPS));
+			let child_b = format!("{lead}{bad}{}", *rng.pick(SEPS));
+			let main_b = format!("{pre}.include \"inc.asm\";{sep}NOP;");
+			check_files(cx, &[("main.asm".to_owned(), main_b), ("inc.asm".to_owned(), child_b)],
+				&[("inc.asm".to_owned(), lead.len() + boff), ("main.asm".to_owned(), inc_off)], &dir);
+			cx.report.hit_n("diagnostic position cases around .include", 2);
+		}
 		if cx.report.oracle_failures_total >= 20 {break;}
 	}
 	let _ = std::fs::remove_dir_all(&dir);
